@@ -109,8 +109,7 @@ instance (o s m) : Decidable (WinInst o s m) := by
   cases o <;> cases s <;> (unfold WinInst; try exact inferInstance)
   all_goals (cases m <;> exact inferInstance)
 
-/-- Same form, or a raw value against an MSS multiple. A raw value against `%n` is only
-specified when it is an instance. -/
+/-- Same form, or a raw value against an MSS multiple or a modulus. -/
 def WinComparable (o s : WindowSize) : Prop :=
   match o, s with
   | _, .any => True
@@ -119,6 +118,7 @@ def WinComparable (o s : WindowSize) : Prop :=
   | .mtu _, .mtu _ => True
   | .mod _, .mod _ => True
   | .value _, .mss _ => True
+  | .value _, .mod _ => True
   | _, _ => False
 instance (o s) : Decidable (WinComparable o s) := by
   cases o <;> cases s <;> (unfold WinComparable; exact inferInstance)
@@ -307,38 +307,6 @@ instance (obsSw sigSw : String) : Decidable (expswReversed obsSw sigSw) := by
 an observed `A` to the first, possibly optional, occurrence. -/
 def headerRepeatedName (sig : List Header) : Prop := ¬ (sig.map (·.name)).Nodup
 instance (s) : Decidable (headerRepeatedName s) := by unfold headerRepeatedName; exact inferInstance
-
-/-- A signature header without `=[…]` meets an observed header of that name carrying a value:
-the code compares `Option<String>` values for equality, so the value wildcard costs an error. -/
-def headerValueWildcard (obs sig : List Header) : Prop :=
-  ∃ s ∈ sig, s.value = none ∧ ∃ o ∈ obs, o.name = s.name ∧ o.value ≠ none
-instance (o s) : Decidable (headerValueWildcard o s) := by
-  unfold headerValueWildcard; exact inferInstance
-
-/-- Observed `%a` against signature `%b` with `b ∣ a`, `a ≠ b`: `(Mod a, Mod b)` asks for equality. -/
-def modDivides (o s : WindowSize) : Prop :=
-  match o, s with
-  | .mod a, .mod b => 0 < b ∧ 0 < a ∧ a % b = 0 ∧ a ≠ b
-  | _, _ => False
-instance (o s) : Decidable (modDivides o s) := by
-  cases o <;> cases s <;> (unfold modDivides; exact inferInstance)
-
-/-- Observed raw window `a` against signature `%b` with `b ∣ a`: `(Value, Mod)` is rejected. -/
-def valueVsMod (o s : WindowSize) : Prop :=
-  match o, s with
-  | .value a, .mod b => 0 < b ∧ a % b = 0
-  | _, _ => False
-instance (o s) : Decidable (valueVsMod o s) := by
-  cases o <;> cases s <;> (unfold valueVsMod; exact inferInstance)
-
-/-- Observed raw window `a` against `mss*b`: the code compares `a / mss` (floor) with `b`, so a
-window that is not a multiple of the MSS still matches. -/
-def windowMssFloor (o s : WindowSize) (mss : Option Nat) : Prop :=
-  match o, s, mss with
-  | .value a, .mss b, some m => 0 < m ∧ a / m = b ∧ a ≠ b * m
-  | _, _, _ => False
-instance (o s m) : Decidable (windowMssFloor o s m) := by
-  cases o <;> cases s <;> cases m <;> (unfold windowMssFloor; exact inferInstance)
 
 end Huginn.KF.C12
 
